@@ -96,10 +96,11 @@ class Layout:
     call_space: str = ''           # between a function name and its opening parenthesis (Python allows it)
     newline: str = '\n'            # line separator: \n, \r\n or \r (str.splitlines treats them alike)
     final_newline: bool = False    # the script ends with a line separator
+    inner_blank: str = ''          # inside a wrapped (parenthesised, multi-line) right-hand side: '' / 'blank' / 'spaces' / 'comment' line between two continuation lines
 
     @staticmethod
     def random(rnd: random.Random) -> 'Layout':
-        return Layout(newline=rnd.choice(['\n', '\n', '\r\n', '\r']), final_newline=rnd.random() < 0.3,
+        return Layout(newline=rnd.choice(['\n', '\n', '\r\n', '\r']), final_newline=rnd.random() < 0.3, inner_blank=rnd.choice(['', '', 'blank', 'spaces', 'comment']),
                       op_space=rnd.choice([' ', '', '  ', '\t']), eq_space=rnd.choice([' ', '', '   ', '\t']),
                       idx_inner=rnd.choice(['', ' ']), brace_inner=rnd.choice(['', ' ', '  ']), plus_sign=rnd.random() < 0.5,
                       zero_index=rnd.random() < 0.3, wrap_rhs=rnd.random() < 0.3, comment=rnd.random() < 0.3,
@@ -181,6 +182,9 @@ def render_eq(eq: Eq, lay: Layout = PLAIN) -> str:
     lhs = render_var(eq.lhs, Layout(plus_sign=lay.plus_sign, zero_index=lay.zero_index and eq.lhs.kind == 'var'))
     if lay.wrap_rhs:
         rhs = '(' + render(eq.rhs, lay, brk='\n        ') + ')'
+        if lay.inner_blank and '\n' in rhs:
+            filler = {'blank': '', 'spaces': '      ', 'comment': '    # a comment-only line inside the brackets (see `x` [1]'}[lay.inner_blank]
+            rhs = rhs.replace('\n', '\n' + filler + '\n', 1)
     else:
         rhs = render(eq.rhs, lay)
     s = f'{lhs}{lay.eq_space}={lay.eq_space}{rhs}'
